@@ -162,8 +162,10 @@ Definition skel_sum_dim (s : list Z) (dims : option (list Z)) (keepdim : bool) :
        | None => [("ReduceSum", [kd keepdim; [0]])]
        | Some ds => [("ReduceSum", [kd keepdim; [0]; ds])]
        end.
-Definition aten_amax (s dims : list Z) (keepdim : bool) : option (list Z) := reduce_shape s (Some dims) keepdim.
-Definition skel_amax (keepdim : bool) : skel := [("pkg.onnxscript.torch_lib::aten_amax", [kd keepdim])].
+(* aten_amax / aten_amin (trace_only): ReduceMax(self, keepdims) when dim is None, else ReduceMax(self, dim, keepdims);
+   `dim` arrives as a tensor, so it is no constant operand of the skeleton *)
+Definition aten_amax (s : list Z) (dims : option (list Z)) (keepdim : bool) : option (list Z) := reduce_shape s dims keepdim.
+Definition skel_amax (keepdim : bool) : skel := [("ReduceMax", [kd keepdim; [0]])].
 Definition aten_mean_dim (s dims : list Z) (keepdim : bool) : option (list Z) :=
   if zlen s =? 0 then Some s else reduce_shape s (Some dims) keepdim.
 Definition skel_mean_dim (s : list Z) (keepdim : bool) : skel :=
